@@ -62,6 +62,8 @@ TIERS = {
     "thorough": {"histories": 9600, "runs": 12, "budget_s": 800, "timeout": 180, "batch": 480, "shrink_s": 120},
 }
 
+MAX_REPORTS = 12
+SHRINK_EACH_IDENTITY = True
 ABS, REL = 1e-6, 1e-9
 
 
